@@ -134,6 +134,46 @@ pub fn gen(ctx: &mut Ctx) {
             }
         }
     }
+    // ---- through the client: whatever the caller is told went wrong, the store is as the statement says
+    {
+        use crate::cl::*;
+        let site = "https://www.example.com";
+        for kind in [Kind::RefFull, Kind::Map, Kind::Slot] {
+            for variant in 0..6usize {
+                let w = World { kind, counter_on: true, id_len: 16, hm: Hm::None, preload: vec![] };
+                let mut steps = vec![cstep(COp::Reg(simple_reg(ctx, site, Some("example.com"))))];
+                let mut r = simple_reg(ctx, site, Some("example.com"));
+                let mut a = simple_auth(ctx, site, Some("example.com")); a.allow_last = true;
+                let (mut sr, mut sa) = (cstep(COp::Reg(r.clone())), cstep(COp::Auth(a.clone())));
+                match variant {
+                    0 => {}
+                    1 => { sr.faults = vec![None, Some(0x28)]; sa.faults = vec![None, None, Some(0x28)]; }       // the save / the counter write-back refused
+                    2 => { sr.uv.answer = Ok((true, false)); sa.uv.answer = Err(0x2F); }
+                    3 => { r.algs = vec![-257]; sr = cstep(COp::Reg(r.clone())); a.allow = Some(vec![vec![9, 9]]); a.allow_last = false; sa = cstep(COp::Auth(a.clone())); }
+                    4 => { sr.faults = vec![Some(0x7F)]; sa.faults = vec![None, Some(0x7F)]; }
+                    _ => { sr.uv.answer = Err(0x27); sa.uv.answer = Ok((false, true)); }
+                }
+                steps.push(sr); steps.push(sa);
+                steps.push(cstep(COp::Auth({ let mut b = simple_auth(ctx, site, Some("example.com")); b.allow_refs = vec![0]; b })));
+                run_ccase(ctx, "C07", &w, &steps); case_no += 1;
+                ctx.stat("c07.client_rows");
+            }
+        }
+    }
+    // ---- a shared store whose lock another user holds while the ceremony writes: the write waits, it is not skipped
+    for kind in [Kind::RefArcRwLock, Kind::MapArcRwLock, Kind::SlotArcRwLock, Kind::RefArcMutex, Kind::MapArcMutex] {
+        for (shared, polls) in [(true, 1usize), (true, 3), (false, 2)] {
+            let id = vec![0xDA, 1, 2, 3, 4, 5, 6, 7, 8, 9, 10, 11, 12, 13, 14, polls as u8];
+            let p = make_passkey(ctx, id.clone(), rp, Some(vec![9]), Some(0), None);
+            let w = World { kind, counter_on: true, id_len: 16, hm: Hm::None, preload: vec![p] };
+            let mut g = simple_get(ctx, rp); g.allow = Some(vec![id.clone()]);
+            let mut s1 = step(Op::Get(g)); s1.hold_polls = polls; s1.hold_shared = shared;
+            let mut s2 = step(Op::Make(simple_make(ctx, rp))); s2.hold_polls = polls; s2.hold_shared = shared;
+            let mut g3 = simple_get(ctx, rp); g3.allow = Some(vec![id.clone()]);
+            run_case(ctx, "C07", &w, &[s1, s2, step(Op::Get(g3))]); case_no += 1;
+            ctx.stat("c07.store_locked_by_another_user");
+        }
+    }
     // ---- the U2F registration path saves through the same store: its refusal is an error there too
     crate::c17::store_failures(ctx, "C07");
     ctx.stat_n("c07.cases", case_no as u64);
